@@ -219,6 +219,12 @@ Theorem c05_matrix_parse_print :
     m_parse (m_print p) = Ok p.
 Proof. exact m_parse_print. Qed.
 
+Theorem c05_matrix_parse_fails_only_on_trailing_dollar :
+  forall l : list N,
+    (exists p, m_parse l = Ok p)
+    \/ (exists row l0, In row (lines l) /\ filter (fun c => negb (is_whitespace c)) row = l0 ++ [c_dollar]).
+Proof. exact m_parse_total. Qed.
+
 Print Assumptions c05_string_single_sound_partial.
 Print Assumptions c05_matrix_single_sound_partial.
 Print Assumptions c05_string_match_exists_sound.
@@ -239,3 +245,4 @@ Print Assumptions c05_string_parse_print.
 Print Assumptions c05_string_print_parse.
 Print Assumptions c05_string_parse_fails_only_on_trailing_dollar.
 Print Assumptions c05_matrix_parse_print.
+Print Assumptions c05_matrix_parse_fails_only_on_trailing_dollar.
